@@ -2,6 +2,7 @@
 mod util;
 mod model;
 mod refint;
+mod rulegen;
 mod props;
 
 fn main() {
@@ -12,7 +13,10 @@ fn main() {
         "C03" => props::c03::run(),
         "C04" => props::c04::run(),
         "C05" => props::c05::run(),
+        "C06" => props::c06::run(),
         "C18" => props::c18::run(),
+        "rulegen-stats" => { rulegen_stats(); 0 }
+        "try" => { try_rule(&args[2..]); 0 }
         "replay" => replay(args.get(2).map(|s| s.as_str()).unwrap_or("")),
         _ => { eprintln!("usage: ascamc <C01..C20> [--tier quick|thorough] | replay <file>"); 2 }
     };
@@ -28,11 +32,34 @@ fn replay(path: &str) -> i32 {
         "C03" => props::c03::replay(&v["case"]),
         "C04" => props::c04::replay(&v["case"]),
         "C05" => props::c05::replay(&v["case"]),
+        "C06" => props::c06::replay(&v["case"]),
         "C18" => props::c18::replay(&v["case"]),
         _ => Err(format!("no replay for {pid}")),
     };
     match res {
         Ok(d) => { println!("PASS: {}", d); 0 }
         Err(d) => { println!("FAIL: {}", d); println!("VIOLATION property={} replay={}", pid, path); 1 }
+    }
+}
+
+#[allow(unused)]
+fn rulegen_stats() {
+    for n in 2..=4 {
+        let t = std::time::Instant::now();
+        let v = rulegen::rules_of_size(n);
+        println!("size {}: {} rules ({:.1}s) e.g. {}", n, v.len(), t.elapsed().as_secs_f64(), v[v.len() / 3].text());
+    }
+}
+
+/// `ascamc try "<rule>[ ;;; <rule2>]" word...` : prints run() per word (probing aid)
+fn try_rule(a: &[String]) {
+    let rules: Vec<&str> = a[0].split(";;;").map(|s| s.trim()).collect();
+    for w in &a[1..] {
+        let r = util::guarded(10_000_000, || asca::run(&[util::group(&rules)], &[w.clone()], &[], &[]));
+        match r {
+            util::Out::Ok(Ok(v)) => println!("{} => {}", w, v.join(" ")),
+            util::Out::Ok(Err(e)) => println!("{} => Err {:?}", w, e),
+            o => println!("{} => CRASH {}", w, o.crash_desc().unwrap()),
+        }
     }
 }
